@@ -39,6 +39,10 @@ def main():
         d0 = sh("timeout 120 %s %s" % (PY, os.path.join(sd, "demo.py")), env=env, cwd="/tmp/seedrun")
         res["demo_unchanged_exit"] = d0.returncode
         a = sh("git -C %s apply %s" % (wt, os.path.join(sd, "patch.diff")))
+        if a.returncode != 0:   # the library moved on (fix commits): try a three-way merge of the patch
+            a = sh("git -C %s apply -3 %s" % (wt, os.path.join(sd, "patch.diff")))
+            res["applied_three_way"] = a.returncode == 0
+            sh("git -C %s reset -q" % wt)
         assert a.returncode == 0, "patch does not apply: " + a.stderr
         d1 = sh("timeout 120 %s %s" % (PY, os.path.join(sd, "demo.py")), env=env, cwd="/tmp/seedrun")
         res["demo_changed_exit"] = d1.returncode
